@@ -121,17 +121,6 @@ pub open spec fn spm_spec<P: Prefix, T>(m: IMap<Seq<bool>, (P, T)>, q: Seq<bool>
     }
 }
 
-/// a key stored in the map is stored at a live, valued node (unfolding of `content`)
-pub proof fn lemma_content_dom<P: Prefix, T>(t: Seq<Node<P, T>>, live: ISet<int>, k: Seq<bool>)
-    requires twf_live(t, live)
-    ensures
-        content(t, live).dom().contains(k) == has_key(t, live, k),
-        has_key(t, live, k) ==> {
-            let i = node_of(t, live, k);
-            stored(t, live, i) && kb(t, i) =~= k && content(t, live)[k] == (t[i].prefix, t[i].value.unwrap())
-        },
-{
-}
 
 /// content-level reading of one descent step of an exact-match lookup
 pub proof fn lemma_get_step<P: Prefix, T>(t: Seq<Node<P, T>>, live: ISet<int>, idx: int, q: Seq<bool>)
